@@ -19,8 +19,10 @@ type runnable interface {
 
 // shard layout of C10 (vcheck gives every shard the seed base*1000+index and at most 256 cases):
 //   shard 0,1,2 : every subset of the 8 variable sites, literal values, task at include depth = shard
-//   shard 3     : every subset of the 7 env sites, with and without TASK_X_ENV_PRECEDENCE
-//   shard >= 4  : random subsets with the other value kinds (template / sh / ref), random env cases
+//   shard 3     : every subset of the 7 env sites, with and without TASK_X_ENV_PRECEDENCE, literal values
+//   shard 4     : the same with the entries of the env: blocks written as sh: commands
+//   shard >= 5  : random subsets with the other value kinds (template / sh / ref), random env cases;
+//                 shard 5 starts with the directed cases
 func genC10(o *common.Opts) []runnable {
 	shard := int(o.Seed % 1000)
 	r := o.Rand()
@@ -35,8 +37,12 @@ func genC10(o *common.Opts) []runnable {
 		for i := 0; i < 256 && len(cs) < o.N; i++ {
 			cs = append(cs, GenEnvCase(i%128, 0, i >= 128))
 		}
+	case shard == 4:
+		for i := 0; i < 256 && len(cs) < o.N; i++ {
+			cs = append(cs, GenEnvCase(i%128, 0, i >= 128).WithSh(nil))
+		}
 	default:
-		if shard == 4 {
+		if shard == 5 {
 			cs = append(cs, directedC10()...) // the reproducers of the reading pass, so that each recorded defect is exercised in every run
 		}
 		for i := len(cs); i < o.N; i++ {
@@ -79,6 +85,28 @@ func directedC10() []runnable {
 		mk(1, 1, []string{"stmt", "file"}, func(c *VarCase) {
 			c.Chain[0].Stmt = []Entry{lit("VM", "mstmt")}
 			c.Chain[0].File = []Entry{shv("VN", "echo f$VM")}
+		}),
+		// a template / ref / sh: text in an include statement's vars that names a variable defined both
+		// by the including file and in the OS environment (global vars > OS environment), one and two levels deep
+		mk(1, 1, []string{"os", "root", "stmt"}, func(c *VarCase) {
+			c.OS = []KV{{"VM", "mos"}}
+			c.Root = []Entry{lit("VM", "mroot")}
+			c.Chain[0].Stmt = []Entry{tmplv("VN", "seen<", "VM", ">")}
+		}),
+		mk(1, 1, []string{"os", "root", "stmt"}, func(c *VarCase) {
+			c.OS = []KV{{"VM", "mos"}}
+			c.Root = []Entry{lit("VM", "mroot")}
+			c.Chain[0].Stmt = []Entry{refv("VN", "VM")}
+		}),
+		mk(1, 1, []string{"os", "root", "stmt"}, func(c *VarCase) {
+			c.OS = []KV{{"VM", "mos"}}
+			c.Root = []Entry{lit("VM", "mroot")}
+			c.Chain[0].Stmt = []Entry{shtv("VN", "echo seen", "VM")}
+		}),
+		mk(2, 2, []string{"os", "file", "stmt"}, func(c *VarCase) {
+			c.OS = []KV{{"VM", "mos"}}
+			c.Chain[0].File = []Entry{lit("VM", "mfile")}
+			c.Chain[1].Stmt = []Entry{tmplv("VN", "seen<", "VM", ">")}
 		}),
 	}
 }
@@ -226,7 +254,7 @@ func Main(args []string) {
 	errs := make([]error, len(cases))
 	workers := 8
 	if prop == "C11" {
-		workers = 4
+		workers = 10 // in-process Executors; the stress case runs alongside
 	}
 	var wg sync.WaitGroup
 	ch := make(chan int)
@@ -303,6 +331,7 @@ func Main(args []string) {
 			obs.Count("kind:env")
 			obs.Count(fmt.Sprintf("env_sites_defined:%d", len(t.SiteList)))
 			obs.Count(fmt.Sprintf("env_precedence:%v", t.Exp))
+			obs.Count(fmt.Sprintf("env_sh_entries:%d", len(t.GEnvSh)+len(t.TEnvSh)))
 			if t.ExitCode != 0 {
 				obs.Count(fmt.Sprintf("exit:%d", t.ExitCode))
 			}
@@ -378,6 +407,7 @@ func Main(args []string) {
 		emit("R_v_snapshot", "(vrun_blamed rp_snapshot)", "vruns", vIdx)
 		emit("R_v_leak", "(vrun_blamed rp_merge_up)", "vruns", vIdx)
 		emit("R_v_eager", "(vrun_blamed rp_eager)", "vruns", vIdx)
+		emit("R_v_osfirst", "(vrun_blamed rp_osfirst)", "vruns", vIdx)
 		emit("R_v_cache", "(vrun_blamed rp_key)", "vruns", vIdx)
 		emit("R_v_other", "vrun_unexplained", "vruns", vIdx)
 		emit("R_e_agree", "erun_agree", "eruns", eIdx)
